@@ -171,8 +171,8 @@ class Tensor:
         if self.free_indices > 0 or other.free_indices > 0:
             raise NotImplementedError("tensor_product is only implemented for tensors without free indices")
         offset = self.rank
-        covariant = list(self._covariant_indices) + [offset + i for i in other._covariant_indices]
-        contravariant = list(self._contravariant_indices) + [offset + i for i in other._contravariant_indices]
+        covariant = sorted(self._covariant_indices) + [offset + i for i in sorted(other._covariant_indices)]
+        contravariant = sorted(self._contravariant_indices) + [offset + i for i in sorted(other._contravariant_indices)]
 
         result = np.tensordot(self.array, other.array, 0)  # type: ignore[arg-type]
         result = np.transpose(result, axes=covariant + contravariant)
